@@ -83,6 +83,16 @@ fn main() {
             w.flush().unwrap();
             println!("{{\"programs\":{},\"events\":{}}}", n_prog, n_ev);
         }
+        #[cfg(fatfs_verif)]
+        "fmtsweep" => {
+            let lo: u64 = args[2].parse().expect("lo");
+            let hi: u64 = args[3].parse().expect("hi");
+            let out = std::fs::File::create(&args[4]).expect("create events");
+            let mut w = BufWriter::with_capacity(1 << 20, out);
+            let n = sweeps::fmtsweep(lo, hi, &mut w);
+            w.flush().unwrap();
+            println!("{{\"programs\":{},\"events\":{}}}", hi - lo + 1, n);
+        }
         "foldtable" => {
             // upper-case expansion (as UTF-16 units) of every BMP scalar >= 0x80 whose upper case differs
             let mut m = serde_json::Map::new();
